@@ -139,6 +139,11 @@ class Model:
         for c, j in self.amp.factor_iteration(deep=2):
             fn.setdefault(self.dg.chains.index(c), []).append(dict(j))
         self.fnames = sorted(fn.items())
+        # names bound to the same tf.Variable (none in the configurations used here: the model's parameter cells are independent)
+        byvar = {}
+        for n, v in self.vm.variables.items():
+            byvar.setdefault(id(v), []).append(n)
+        self.ties = [(n, l) for l in byvar.values() if len(l) > 1 for n in l]
         self.mask_part = []
         for c in self.dg:
             self.mask_part.append(c)
@@ -325,6 +330,11 @@ FIXED_PROGS = [
     # the shape used by tf_pwa/model/custom.py: temp_used_res > mask_params > evaluation
     ("with", ("temp_used_res", ["R_BC"], []), ("with", ("mask_params", {"R_BC_mass": 0.53125}), ("helper", ("pw", [(["R_BC"], [])])))),
     ("with", ("temp_params", {"R_BC_mass": 0.625}), ("with", ("mask_params", {"R_BC_mass": 0.375}), ("seq", ("eval",), ("helper", ("ff_ng", ["R_BC"], 5))))),
+]
+NESTED_MASK_PROGS = [  # nested masked-parameter blocks merge (inner values win, the order of the outer mask is kept)
+    ("with", ("mask_params", {"R_BC_mass": 0.75}), ("seq", ("eval",), ("seq", ("with", ("mask_params", {"R_CD_width": 0.125}), ("eval",)), ("eval",)))),
+    ("with", ("mask_params", {"R_BC_mass": 0.75, "R_BD_mass": 0.625}), ("with", ("mask_params", {"R_CD_width": 0.125, "R_BC_mass": 0.5}), ("helper", ("interf",)))),
+    ("with", ("mask_params", {"R_BD_width": 0.125}), ("fiter", ("with", ("mask_params", {"R_BD_width": 0.25}), ("eval",)))),
 ]
 MASKED_PROGS = [  # AbsPDF.temp_params entered while a parameter mask is active (leaked before feefe02)
     ("with", ("mask_params", {"R_BC_mass": 0.75}), ("with", ("temp_params", {"R_BD_mass": 0.625}), ("eval",))),
@@ -592,10 +602,11 @@ def c_prog(M, p):
 
 
 def c_env(M):
-    return "(mkEnv %d [%s] [%s])" % (
+    return "(mkEnv %d [%s] [%s] [%s])" % (
         M.nch,
         ";".join("(%d,%s)" % (r, c_zl(l)) for r, l in M.resmap),
         ";".join("(%d,[%s])" % (i, ";".join(c_dict(M, j) for j in js)) for i, js in M.fnames),
+        ";".join("(%d,%s)" % (M.key(n), c_zl([M.key(i) for i in l])) for n, l in M.ties),
     )
 
 
@@ -689,8 +700,8 @@ def run(ctx):
     M = make_model("a", ctx.seed)
     inits = [(list(range(M.nch)), None), ([0, 1], None), ([2], None), ([1, 0, 2], None), ([], ["R_BC", 1, 2]), ([0, 2], None)]
     nrand = 40 if quick else 250
-    progs = list(FIXED_PROGS) + list(MASKED_PROGS) + list(BAD_PROGS)
-    while len(progs) < len(FIXED_PROGS) + len(MASKED_PROGS) + len(BAD_PROGS) + nrand:
+    progs = list(FIXED_PROGS) + list(MASKED_PROGS) + list(BAD_PROGS) + list(NESTED_MASK_PROGS)
+    while len(progs) < len(FIXED_PROGS) + len(MASKED_PROGS) + len(BAD_PROGS) + len(NESTED_MASK_PROGS) + nrand:
         p = gen_prog(rnd, M, rnd.choice([2, 3, 3, 4]), allow_unsafe=True)
         progs.append(p)
         ctx.count("temp_params_under_mask=%s" % ("no" if is_safe(p) else "yes"))
@@ -742,8 +753,8 @@ def run(ctx):
     if not quick:
         M4 = make_model("b", ctx.seed)
         inits4 = [(list(range(4)), None), ([0, 2], None), ([3, 1], None), ([], ["R_BC", 3]), ([1], None)]
-        progs4 = list(FIXED_PROGS) + list(MASKED_PROGS) + list(BAD_PROGS)
-        while len(progs4) < 109 + len(FIXED_PROGS):
+        progs4 = list(FIXED_PROGS) + list(MASKED_PROGS) + list(BAD_PROGS) + list(NESTED_MASK_PROGS)
+        while len(progs4) < 112 + len(FIXED_PROGS):
             progs4.append(gen_prog(rnd, M4, rnd.choice([2, 3, 4]), allow_unsafe=True))
         ctx.log("model B: %d chains, %d variables, %d programs" % (M4.nch, len(M4.names), len(progs4)))
         pl4, cs4, mt4, dr4 = campaign(ctx, M4, "b", progs4, inits4, rnd, 15)
@@ -773,6 +784,8 @@ def run(ctx):
         extra_assumptions=[
             "user code inside a block is modelled as read-only (it may look at the model and raise); code that itself "
             "assigns parameters is covered only by the per-manager component theorems",
+            "parameter names are modelled as independent cells (no two names bound to one tf.Variable in the configurations run here; "
+            "the tied-name clause of mask_params is in the model but not exercised by this check - tied names are C16's subject)",
             "CPython generator finalisation (closing factor_iteration on loop exit) is runtime behaviour: tied, not proved",
         ])
 
